@@ -11,6 +11,19 @@ from vlib import NCPU, Inconclusive, write_evidence, known_match, save_replay, r
 MODS = ["vikja", "odal", "dagaz"]
 
 
+def time_scale():
+    """the idle scenarios run in real time (idle timeout 250 ms, a ping every 45 ms): on a loaded machine the same
+    scenario is run on a slower clock (the margins keep their proportions)"""
+    try:
+        l1 = os.getloadavg()[0]
+    except OSError:
+        return 1
+    return 1 if l1 < 1.5 * NCPU else (2 if l1 < 4 * NCPU else 4)
+
+
+TS = 1
+
+
 def J(c, sid, rid=1):
     return dict(op="req", c=c, req=dict(k="Join", rid=rid, sid=sid, ts=rid))
 
@@ -34,7 +47,7 @@ def fault_ops(cls, seed):
         "burst_receipt": ([dict(op="burst", c=V, n=[1, 9, 40][seed % 3], req=dict(k="Receipt", rid=77, receipt="", hash="", sig=""))], "fatal"),
         "burst_fail": ([dict(op="burst", c=V, n=[2, 9, 12, 40][seed % 4], req=dict(k="EntityAdd", rid=4, persist=False, flag=0, px=1, ts=4))], "fatal_if_fresh"),
         # the victim stays silent for the idle timeout; the witnesses keep talking and must survive
-        "idle": ([x for i in range(14) for x in (dict(op="barrier", c=3, ms=2000), dict(op="barrier_if", c=2, ms=2000), dict(op="sleep", ms=45))], "fatal"),
+        "idle": ([x for i in range(14) for x in (dict(op="barrier", c=3, ms=2000 * TS), dict(op="barrier_if", c=2, ms=2000 * TS), dict(op="sleep", ms=45 * TS))], "fatal"),
         # not fatal: the connection must stay usable
         "unknown_type": ([R(V, k="Unknown", rid=5, type=77), R(V, k="Unknown", rid=5, type=150), R(V, k="Leave", rid=6)], "benign"),
         "pose_nil": ([R(V, k="Pose", eid=1, px=-1, ts=9), dict(op="sleep", ms=30)], "benign_if_joined"),
@@ -44,8 +57,8 @@ def fault_ops(cls, seed):
         "dagaz_nil": ([R(V, k="Quad", quads=[[None, None]]), R(V, k="Ground", rid=9), R(V, k="Region", rid=10), R(V, k="Debug", rid=11)], "benign"),
         "dagaz_nan": ([R(V, k="Quad", quads=[[["nan", 0, 0], [1, 0, 1]], [[0, 0, "inf"], [1, 0, 1]], [[0, 0, 0], ["-inf", 0, "nan"]]]),
                        R(V, k="Ground", rid=9, ray=[["nan", 5, 0], ["nan", -5, 0]])], "benign"),
-        "chatty": ([x for i in range(14) for x in (R(V, k="Ping", rid=300 + i), dict(op="barrier", c=3, ms=2000), dict(op="barrier_if", c=2, ms=2000),
-                                                     dict(op="sleep", ms=45))], "benign"),
+        "chatty": ([x for i in range(14) for x in (R(V, k="Ping", rid=300 + i), dict(op="barrier", c=3, ms=2000 * TS), dict(op="barrier_if", c=2, ms=2000 * TS),
+                                                     dict(op="sleep", ms=45 * TS))], "benign"),
         # the victim stops reading, the witness of its session floods it with relays, then the victim's connection is reset:
         # everything C06 promises must still happen (ConnSend.tla; the regression scenarios l2_D19_* add the schedule)
         "stalled_member_close": ([dict(op="stall", c=V), dict(op="aburst_if", c=2, n=1500, req=dict(k="Custom", len=10000, dig=0, to=[], ts=9)),
@@ -64,7 +77,7 @@ LIFE = ["fresh", "alone", "full", "switched"]
 def scenario(cls, life, seed):
     """victim = connection 1; witness 2 shares its session (life=full); witness 3 lives in another session"""
     ops = [dict(op="dial", c=1), dict(op="dial", c=2), dict(op="dial", c=3)]
-    idle = 250 if cls in ("idle", "chatty") else 60000
+    idle = 250 * TS if cls in ("idle", "chatty") else 60000
     ops += [J(3, 0, 1), dict(op="barrier", c=3)]          # session 1: the bystander
     if life in ("alone", "full", "switched"):
         ops += [J(1, 0, 2), dict(op="barrier", c=1)]        # session 2: the victim's
@@ -231,6 +244,8 @@ def validate_events(work, results):
 
 
 def run(work, tier, replay=None):
+    global TS
+    TS = time_scale()
     rnd = random.Random(work.seed)
     work.build_harness()
     mc_runs = []
@@ -374,6 +389,17 @@ def run(work, tier, replay=None):
             bad = judge(sc, r)
         if bad:
             problems.append((sc, bad))
+    # the real-time scenarios (idle timeout) are judged again on their own, one at a time, before they count: a harness
+    # that was descheduled for longer than the idle timeout makes a witness idle out, which is the server being right
+    again = [(sc, bad) for sc, bad in problems if sc.get("cls") in ("idle", "chatty") and not sc.get("regression")]
+    for sc, bad in again:
+        for attempt in range(2):
+            r2 = run_some([sc], "retry")[0]
+            if not judge(sc, r2):
+                results[sc["sid"]] = r2
+                problems = [(s2, b2) for s2, b2 in problems if s2["sid"] != sc["sid"]]
+                work.log("scenario %s: %s - not confirmed when run on its own (machine load)" % (sc["sid"], bad[0]))
+                break
     heavy = {s["sid"] for s in scs if s.get("regression") and tier == "quick"}
     rejected = validate_events(work, [r for r in results.values() if r["sid"] not in heavy and len(r["events"]) < 4000])
     work.log("%d scenarios, %d with problems, %d handler event streams rejected by ConnTrace" % (len(scs), len(problems), len(rejected)))
